@@ -31,7 +31,7 @@ func TestC18(t *testing.T) {
 		if !rec.Mine(c) {
 			continue
 		}
-		iso := rec.RunIsolated("^TestC18One$", map[string]string{"VERIF_CASE": fmt.Sprint(c)}, 4*time.Minute)
+		iso := rec.RunIsolated("^TestC18One$", map[string]string{"VERIF_CASE": fmt.Sprint(c)}, 8*time.Minute)
 		rec.Merge(iso.Summary)
 		if iso.Summary == nil {
 			if iso.Crash != "" {
@@ -50,14 +50,28 @@ func TestC18One(t *testing.T) {
 	rec := mon.Open("C18")
 	var c int
 	fmt.Sscan(os.Getenv("VERIF_CASE"), &c)
-	scenario(rec, c)
+	if c%12 == 5 {
+		churnBehindLeaderlessGroup(rec, c)
+	} else {
+		scenario(rec, c)
+	}
 	rec.Close()
 	os.Exit(0) // do not wait for servers that may be wedged
+}
+
+func inList(l []string, s string) bool {
+	for _, x := range l {
+		if x == s {
+			return true
+		}
+	}
+	return false
 }
 
 type parked struct {
 	id    string
 	state string
+	long  bool // parked for a minute or more (the runtime prints "N minutes")
 	text  string
 }
 
@@ -76,7 +90,7 @@ func dump() []parked {
 		if i := strings.Index(st, ","); i >= 0 {
 			st = st[:i]
 		}
-		out = append(out, parked{id: m[1], state: st, text: g})
+		out = append(out, parked{id: m[1], state: st, long: strings.Contains(m[2], "minutes"), text: g})
 	}
 	return out
 }
@@ -130,12 +144,117 @@ func cycles(gs []parked) map[string][]string {
 		found["allocator-loop-holds-the-partitions-lock-across-a-catalogue-proposal-whose-apply-needs-that-lock-in-watch"] = append(loopOnProposal, applyWatchLock...)
 	}
 	if len(loopOnProposal) > 0 && len(applyNotifySend) > 0 {
-		found["allocator-loop-waits-for-catalogue-apply-which-waits-on-the-full-node-notification-channel"] = append(loopOnProposal, applyNotifySend...)
+		name := "allocator-loop-waits-for-catalogue-apply-which-waits-on-the-full-node-notification-channel"
+		for _, g := range gs {
+			if inList(loopOnProposal, g.id) && (has(g, "raft.(*RaftGroup).ProposeLeave") || has(g, "raft.(*RaftGroup).ProposeJoin")) {
+				// not waiting for the catalogue at all: waiting for a leader of
+				// the partition's own group
+				name = "node-change-handler-waits-for-a-leader-of-a-partition-group-while-the-full-notification-channel-blocks-the-catalogue-apply"
+			}
+		}
+		found[name] = append(loopOnProposal, applyNotifySend...)
 	}
 	if len(loopOnLock) > 0 && len(anyNotifySend) > 0 {
 		found["allocator-loop-blocked-while-node-notification-sender-holds-the-address-lock"] = append(loopOnLock, anyNotifySend...)
 	}
 	return found
+}
+
+// persistentCycle decides a stall. A wait-for cycle is a wedge only if the
+// same goroutines stay parked in it, in one uninterrupted wait each, for longer
+// than any bounded wait of the control plane (proposal and membership
+// timeouts are 5-10 s): the runtime prints a wait of a minute or more as
+// "N minutes", and every goroutine of the cycle must show that. A cycle that
+// dissolves or whose members re-park in the meantime is not a wedge.
+//
+// Cycles are recognised by frame names. Whatever its shape, a wedge of the
+// control plane also shows as a ready-loop goroutine parked for more than a
+// minute inside an apply callback (the loop itself wakes up every 100 ms):
+// that is reported under the function and wait it is parked in when no named
+// cycle is confirmed.
+func persistentCycle() (string, []string, bool) {
+	first := cycles(dump())
+	firstApply := parkedInApply(dump())
+	if len(first) == 0 && len(firstApply) == 0 {
+		return "", nil, false
+	}
+	for waited := 0; waited < 90; waited += 4 {
+		time.Sleep(4 * time.Second)
+		gs := dump()
+		now := cycles(gs)
+		for name, ids := range first {
+			if fmt.Sprint(now[name]) != fmt.Sprint(ids) {
+				delete(first, name)
+			}
+		}
+		nowApply := parkedInApply(gs)
+		for id, where := range firstApply {
+			if nowApply[id] != where {
+				delete(firstApply, id)
+			}
+		}
+		if len(first) == 0 && len(firstApply) == 0 {
+			return "", nil, false
+		}
+		var names []string
+		for name := range first {
+			names = append(names, name)
+		}
+		sort.Strings(names)
+		for _, name := range names {
+			all := true
+			for _, id := range first[name] {
+				for _, g := range gs {
+					if g.id == id && !g.long {
+						all = false
+					}
+				}
+			}
+			if all {
+				return name, first[name], true
+			}
+		}
+		if len(first) == 0 {
+			var ids []string
+			for id := range firstApply {
+				ids = append(ids, id)
+			}
+			sort.Strings(ids)
+			for _, id := range ids {
+				for _, g := range gs {
+					if g.id == id && g.long {
+						return "apply-goroutine-parked-in-" + firstApply[id], []string{id}, true
+					}
+				}
+			}
+		}
+	}
+	return "", nil, false
+}
+
+var repoFrame = regexp.MustCompile(`(?m)^github\.com/marekgalovic/anndb/(\S+)\(`)
+
+// parkedInApply: ready-loop goroutines that are parked inside something the
+// loop called (innermost repository frame is not the loop itself), as
+// id -> "<function>:<wait>".
+func parkedInApply(gs []parked) map[string]string {
+	out := map[string]string{}
+	for _, g := range gs {
+		if !strings.Contains(g.text, "raft.(*RaftGroup).run(") {
+			continue
+		}
+		switch {
+		case strings.HasPrefix(g.state, "sync."), g.state == "chan send", g.state == "chan receive", g.state == "select", g.state == "semacquire":
+		default:
+			continue // running, in a syscall, IO wait ...
+		}
+		m := repoFrame.FindStringSubmatch(g.text)
+		if m == nil || strings.HasSuffix(m[1], "raft.(*RaftGroup).run") {
+			continue
+		}
+		out[g.id] = m[1] + ":" + strings.ReplaceAll(g.state, " ", "-")
+	}
+	return out
 }
 
 func scenario(rec *mon.Recorder, c int) bool {
@@ -171,18 +290,13 @@ func scenario(rec *mon.Recorder, c int) bool {
 	}
 	// verdict on a stall: structural cycle that persists => violation, else inconclusive
 	stalled := func(what string) bool {
-		d1 := cycles(dump())
-		time.Sleep(3 * time.Second)
-		d2 := cycles(dump())
-		for name, ids := range d1 {
-			if ids2, ok := d2[name]; ok && fmt.Sprint(ids) == fmt.Sprint(ids2) {
-				r := replay()
-				r["goroutines"] = ids
-				r["stalled"] = what
-				rec.Violation("wedge:"+name, fmt.Sprintf("%s: %s did not complete; goroutines %v are parked in a wait-for cycle in two dumps 3 s apart", desc, what, ids), r)
-				rec.Case(mon.Digest(desc, "wedged"), true)
-				return true
-			}
+		if name, ids, ok := persistentCycle(); ok {
+			r := replay()
+			r["goroutines"] = ids
+			r["stalled"] = what
+			rec.Violation("wedge:"+name, fmt.Sprintf("%s: %s did not complete; goroutines %v have been parked in the same wait (wait-for cycle, or an apply callback of the ready-loop) for more than a minute", desc, what, ids), r)
+			rec.Case(mon.Digest(desc, "wedged"), true)
+			return true
 		}
 		if p := os.Getenv("VERIF_DUMP"); p != "" {
 			buf := make([]byte, 16<<20)
@@ -350,17 +464,12 @@ func scenario(rec *mon.Recorder, c int) bool {
 			}
 		}
 		// the catalogue does not advance: look for a wait-for cycle before giving up
-		d1 := cycles(dump())
-		time.Sleep(3 * time.Second)
-		d2 := cycles(dump())
-		for name, ids := range d1 {
-			if ids2, ok := d2[name]; ok && fmt.Sprint(ids) == fmt.Sprint(ids2) {
-				r := replay()
-				r["goroutines"], r["diag"] = ids, diag
-				rec.Violation("wedge:"+name, fmt.Sprintf("%s: no catalogue entry could be created after the restart; goroutines %v are parked in a wait-for cycle in two dumps 3 s apart%s", desc, ids, diag), r)
-				rec.Case(mon.Digest(desc, "wedged"), true)
-				return true
-			}
+		if name, ids, ok := persistentCycle(); ok {
+			r := replay()
+			r["goroutines"], r["diag"] = ids, diag
+			rec.Violation("wedge:"+name, fmt.Sprintf("%s: no catalogue entry could be created after the restart; goroutines %v have been parked in the same wait (wait-for cycle, or an apply callback of the ready-loop) for more than a minute%s", desc, ids, diag), r)
+			rec.Case(mon.Digest(desc, "wedged"), true)
+			return true
 		}
 		rec.Inconclusive(desc + ": marker could not be created after the restart" + diag + fmt.Sprintf(" steps=%v", replay()["steps"]))
 		return true
@@ -378,5 +487,191 @@ func scenario(rec *mon.Recorder, c int) bool {
 		rec.Sample(replay())
 	}
 	_ = sort.Strings
+	return true
+}
+
+// churnBehindLeaderlessGroup: a replica dies and is removed from the cluster
+// while it led a two-replica partition group; the surviving replica's
+// node-change handler then proposes the group's own membership change, which
+// has to wait for a leader that can never be elected. Membership keeps
+// changing afterwards (node 4 joins and leaves repeatedly): the node must keep
+// applying its catalogue however many notifications pile up behind that handler.
+func churnBehindLeaderlessGroup(rec *mon.Recorder, c int) bool {
+	rng := rec.Rand("c18-churn", c)
+	desc := fmt.Sprintf("case=%d nodes=4 churn_behind_leaderless_partition_group=true", c)
+	rec.Current(desc)
+	cl := sim.New(sim.Options{Nodes: 4, Dir: os.Getenv("VERIF_SCRATCH") + fmt.Sprintf("/c18-%d", c), TickEvery: 5 * time.Millisecond, Seed: rec.Seed() + int64(c), NoJoinBarrier: true})
+	defer cl.Close()
+	var steps []string
+	t0 := time.Now()
+	note := func(s string) { steps = append(steps, fmt.Sprintf("+%.1fs %s", time.Since(t0).Seconds(), s)) }
+	replay := func() map[string]interface{} {
+		return map[string]interface{}{"case": c, "seed": rec.Seed(), "desc": desc, "steps": append([]string(nil), steps...)}
+	}
+	stalled := func(what string) bool {
+		if name, ids, ok := persistentCycle(); ok {
+			r := replay()
+			r["goroutines"], r["stalled"] = ids, what
+			rec.Violation("wedge:"+name, fmt.Sprintf("%s: %s did not complete; goroutines %v have been parked in the same wait (wait-for cycle, or an apply callback of the ready-loop) for more than a minute", desc, what, ids), r)
+			rec.Case(mon.Digest(desc, "wedged"), true)
+			return true
+		}
+		if p := os.Getenv("VERIF_DUMP"); p != "" {
+			buf := make([]byte, 16<<20)
+			buf = buf[:runtime.Stack(buf, true)]
+			os.WriteFile(p, buf, 0o644)
+		}
+		rec.Inconclusive(fmt.Sprintf("%s: %s did not complete within the watchdog, no persistent wait-for cycle found (steps %v)", desc, what, steps))
+		return true
+	}
+	for i := 0; i < 3; i++ {
+		if err := cl.StartNode(i); err != nil {
+			rec.Inconclusive(fmt.Sprintf("%s: node %d: %v", desc, i+1, err))
+			return true
+		}
+		if i == 0 {
+			cl.WaitFor(20*time.Second, func() bool { return cl.Nodes[0].ZeroLeader() != 0 })
+		}
+		if cl.WaitMembership(i+1, 20*time.Second) != nil {
+			rec.Inconclusive(fmt.Sprintf("%s: membership of %d nodes not reached", desc, i+1))
+			return true
+		}
+	}
+	// a partition on two replicas [S, V] with V != node 1 (node 1 is the join contact)
+	var ds, pid uuid.UUID
+	var S, V *sim.Node
+	for attempt := 0; attempt < 12 && V == nil; attempt++ {
+		id, _, err := cl.CreateDataset(attempt%3, 2, 1, 2, pb.Space_Euclidean)
+		if err != nil {
+			continue
+		}
+		d := cl.Nodes[0].Dataset(id)
+		if d == nil {
+			continue
+		}
+		for _, p := range d.VerifPartitionIds() {
+			ids := d.VerifPartitionNodeIds(p)
+			if len(ids) == 2 && ids[1] != 1 {
+				ds, pid = id, p
+				S, V = cl.Nodes[ids[0]-1], cl.Nodes[ids[1]-1]
+			}
+		}
+	}
+	if V == nil {
+		rec.Inconclusive(desc + ": no partition placed on [S, V] with V != node 1 in 12 datasets")
+		return true
+	}
+	note(fmt.Sprintf("dataset with one partition on nodes [%d %d]", S.Id, V.Id))
+	// V leads the partition group when it dies
+	vg, sg := V.PartitionRaft(ds, pid), S.PartitionRaft(ds, pid)
+	if vg == nil || sg == nil {
+		rec.Inconclusive(desc + ": partition group not loaded on both replicas")
+		return true
+	}
+	if cl.WaitFor(20*time.Second, func() bool {
+		if sg.VerifStatus().Lead == V.Id {
+			return true
+		}
+		cl.Guard(2*time.Second, func() { vg.VerifCampaign() })
+		time.Sleep(50 * time.Millisecond)
+		return false
+	}) != nil {
+		rec.Inconclusive(fmt.Sprintf("%s: node %d did not become leader of the partition group", desc, V.Id))
+		return true
+	}
+	note(fmt.Sprintf("node %d leads the partition group", V.Id))
+	cl.Crash(V.Idx)
+	cl.Teardown(V.Idx)
+	note(fmt.Sprintf("node %d dies", V.Id))
+	var other *sim.Node
+	for _, n := range cl.Nodes[:3] {
+		if n != S && n != V {
+			other = n
+		}
+	}
+	var rmErr error
+	if !cl.Guard(20*time.Second, func() { rmErr = cl.Nodes[0].In.NodesManager.RemoveNode(V.Id) }) {
+		return !stalled(fmt.Sprintf("removal of dead node %d", V.Id))
+	}
+	if rmErr != nil {
+		rec.Inconclusive(fmt.Sprintf("%s: removal of node %d: %v", desc, V.Id, rmErr))
+		return true
+	}
+	note(fmt.Sprintf("node %d removed from the cluster; node %d's handler proposes the partition group's own change (no leader can be elected)", V.Id, S.Id))
+	rec.Count("leaderless_group_histories", 1)
+	ctx := context.Background()
+	// bounded progress: once membership stops changing, a new catalogue entry
+	// is created and applied on both live members within the bound (each
+	// queued notification may cost the handler one proposal timeout)
+	marker := func(what string, bound time.Duration) bool {
+		var id uuid.UUID
+		deadline := time.Now().Add(bound)
+		for uuid.Equal(id, uuid.Nil) && time.Now().Before(deadline) {
+			cl.Guard(10*time.Second, func() {
+				if d, err := other.DM().Create(ctx, &pb.Dataset{Dimension: 2, PartitionCount: 1, ReplicationFactor: 1}); err == nil {
+					id = uuid.FromBytesOrNil(d.Meta().GetId())
+				}
+			})
+			if uuid.Equal(id, uuid.Nil) {
+				time.Sleep(200 * time.Millisecond)
+			}
+		}
+		if uuid.Equal(id, uuid.Nil) {
+			return !stalled("catalogue create " + what)
+		}
+		left := time.Until(deadline)
+		if left < 20*time.Second {
+			left = 20 * time.Second
+		}
+		if cl.WaitFor(left, func() bool { return S.Dataset(id) != nil && other.Dataset(id) != nil }) != nil {
+			return !stalled(fmt.Sprintf("catalogue apply on node %d %s", S.Id, what))
+		}
+		note("catalogue entry created and applied " + what)
+		rec.Count("progress_checks", 1)
+		return true
+	}
+	if !marker("after the removal", 40*time.Second) {
+		return false
+	}
+	cycles := 6 + rng.Intn(3) // two notifications each: more than the channel holds
+	changes := 0
+	for k := 0; k < cycles; k++ {
+		// a refused or slow change ends the churn; the verdict is progress afterwards
+		if err := cl.StartNode(3); err != nil {
+			note("join of node 4 failed: " + err.Error())
+			cl.Crash(3)
+			cl.Teardown(3)
+			break
+		}
+		note("node 4 joined")
+		changes++
+		var err error
+		if !cl.Guard(30*time.Second, func() { err = other.In.NodesManager.RemoveNode(4) }) {
+			note("removal of node 4 did not return")
+			break
+		}
+		note(fmt.Sprintf("node 4 removed err=%v", err))
+		cl.Crash(3)
+		cl.Teardown(3)
+		if err != nil {
+			break
+		}
+		changes++
+	}
+	rec.Count("membership_changes_behind_blocked_handler", int64(changes))
+	rec.Max("most_changes_behind_one_blocked_handler", int64(changes))
+	if !marker(fmt.Sprintf("after %d membership changes behind the blocked handler", changes), 150*time.Second) {
+		return false
+	}
+	for _, n := range []*sim.Node{S, other} {
+		if !cl.Guard(10*time.Second, func() { n.DM().List(ctx, false) }) {
+			return !stalled(fmt.Sprintf("List on node %d", n.Id))
+		}
+		rec.Count("progress_checks", 1)
+	}
+	rec.Case(mon.Digest(desc, S.Id, V.Id, cycles), true)
+	if rec.WantSample() {
+		rec.Sample(replay())
+	}
 	return true
 }
